@@ -194,16 +194,29 @@ func zlibDeflatePart(c []byte) ([]byte, bool) {
 // a contract complaint ("" if none).
 func readAllSizes(rd io.Reader, next func() int, limit int) (out []byte, err error, bad string) {
 	zeros := 0
+	var buf []byte
+	dirty := 0
 	for {
 		n := next()
 		if n < 1 {
 			n = 1
 		}
-		p := make([]byte, n)
-		for i := range p {
-			p[i] = 0xEE
+		if n > len(buf) {
+			buf = make([]byte, n)
+			for i := range buf {
+				buf[i] = 0xEE
+			}
+		} else {
+			for i := 0; i < dirty; i++ {
+				buf[i] = 0xEE
+			}
 		}
+		p := buf[:n]
 		k, e := rd.Read(p)
+		dirty = n
+		if k >= 0 && k < n {
+			dirty = k
+		}
 		if k < 0 || k > n {
 			return out, e, fmt.Sprintf("Read returned n=%d for a %d-byte buffer", k, n)
 		}
